@@ -28,7 +28,10 @@ def module_case(arg):
     out = {"idx": arg["idx"], "viol": [], "cases": 0, "eq_true": 0, "eq_false": 0, "copies_ok": 0, "copies_refused": 0,
            "overlap_copies": 0, "abstained": 0, "aborts": [], "distinct": [], "built": False, "sample": None, "rejected": 0,
            "pair_kinds": {}}
-    gm = cppsuite.gen_module(arg["seed"], "mod", arg["idx"], arg.get("profile"))
+    profile = arg.get("profile")
+    if profile is None and arg["idx"] % 3 == 1:
+        profile = {"union_bias": True}  # every third module: tagged unions over twin sub-structures
+    gm = cppsuite.gen_module(arg["seed"], "mod", arg["idx"], profile)
     out["rejected"] = len(gm["rejected"])
     if gm["m"] is None:
         return out
@@ -168,7 +171,9 @@ def module_case(arg):
                 out["abstained"] += 1
                 continue
             if problems:
-                out["viol"].append({"mech": "%s-differs:%s" % ("copy" if opn != "eq" else "equals", problems[0][0]),
+                tainted = opn != "ocopy" and (cppsuite.signed_enum_taint(m, s, params, a) or cppsuite.signed_enum_taint(m, s, params, bb))
+                out["viol"].append({"mech": "signed-enum-narrow-field-zero-extended" if tainted else
+                                    "%s-differs:%s" % ("copy" if opn != "eq" else "equals", problems[0][0]),
                                     "what": "struct %s params %r op %s kind %s a=%s b=%s: %s" % (
                                         s.name, params, opn, kind, a.hex(), bb.hex() if isinstance(bb, bytes) else bb,
                                         "; ".join("%s expected %s got %s" % p for p in problems)),
